@@ -33,7 +33,7 @@ func runC09(c *Ctx) {
 	nontrivialIdx := 0
 	for _, o := range ix.Obls {
 		kinds[o.Kind]++
-		ob := r.Check("R09.P", FuncName(o.Fn), o.Kind+" "+o.What, o.In.Pos(), o.OK, o.How)
+		ob := r.CheckHow("R09.P", FuncName(o.Fn), o.Kind+" "+o.What, o.In.Pos(), o.OK, o.How, o.How)
 		if o.Kind == "IDX" || o.Kind == "SLC" {
 			nontrivialIdx++
 		}
